@@ -9,6 +9,9 @@ From FB.Gen Require Import JsonUtilGen.
 From FB.Spec Require Import Prog Ref.
 From FB.Model Require Import Types Monad Builder Persist Build Run Frame.
 From FB.Proofs Require Import FrameLaws CleanLaws.
+(* T1g: Model/BuildDirs.v and Model/CreatedFiles.v are equal to the translation of build_dirs.py / created_files.py
+   (Gen/BookGen.v, regenerated on every run); a change of those sources that the model does not follow breaks this import *)
+From FB.Proofs Require BookGenLaws.
 Import ListNotations.
 
 (* A regular file other than the cache file, the paths passed to build_file in this build (P: any set
